@@ -175,13 +175,13 @@ def g_function_forward(cls, o_dim, ri_dim, skip=False, absent=None):
                                   TF, cls + '.forward', mk, FBASE, lambda it, fc, *a: con(it, *a), LEVELS, FMV)
 
 
-def g_function_adjoint(cls, o_dim, ri_dim, needs=(True,), skip=False, canary=False, single_reflection=True, abstract=True):
+def g_function_adjoint(cls, o_dim, ri_dim, needs=(True,), skip=False, canary=False, single_reflection=True, abstract=True, low_absent=None):
     """real forward + real backward of a dual-tree Function: K_bwd == K_fwd^T, under the filter
     identities the code relies on (level-1 filters symmetric; q-shift tree b = reverse(tree a))"""
     fwd = cls.startswith('FWD')
     l1 = cls.endswith('J1')
-    oid = '%s.backward[o_dim=%d,ri_dim=%d,needs=%s%s]' % (cls, o_dim, ri_dim, ''.join('T' if b else 'F' for b in needs),
-                                                        ',skip' if skip else '')
+    oid = '%s.backward[o_dim=%d,ri_dim=%d,needs=%s%s%s]' % (cls, o_dim, ri_dim, ''.join('T' if b else 'F' for b in needs),
+                                                          ',skip' if skip else '', ',lowpass=%s' % low_absent if low_absent else '')
 
     def filters(pre):
         if l1 and abstract:
@@ -208,6 +208,10 @@ def g_function_adjoint(cls, o_dim, ri_dim, needs=(True,), skip=False, canary=Fal
             data = [CD.data_tensor('ll', (Bn, C, 2 * H, 2 * W), requires_grad=needs[0]),
                     CD.data_tensor('hs', _hshape(o_dim, ri_dim), requires_grad=needs[1])]
             args = data + filters('g') + [o_dim, ri_dim, 1]
+            if low_absent == 'none':            # the low-pass input is not a tensor: autograd accepts only None for its slot
+                args[0] = None
+            elif low_absent == '0dim':
+                args[0] = t_zeros((), dtype=prims.DT_IN, kind='torch')
         fc = _fctx(tuple(needs) + (False,) * (len(args) - len(needs)))
         out = it.call(TF, cls + '.forward', [fc] + args, {})
         ys = list(out) if isinstance(out, tuple) else [out]
@@ -235,6 +239,10 @@ def g_function_adjoint(cls, o_dim, ri_dim, needs=(True,), skip=False, canary=Fal
             continue
         data, ys, gs_, grads = res[1]
         live = [(y, 'dy%d' % q) for q, y in enumerate(ys) if y.ndim]
+        if low_absent == 'none':
+            okn = grads[0] is None
+            obs.append(Ob('%s/slot0[absent low-pass]-gets-None (a gradient for a non-tensor input is an autograd error)' % pid, 'POST',
+                          'proved' if okn else 'refuted', 'structural', 0, {} if okn else {'model': {}}))
         for slot, (d, need) in enumerate(zip(data, needs)):
             if not need:
                 continue
